@@ -26,6 +26,15 @@ structure Inv (cfg : Cfg) (g : Dag) (f : Nat → List R → Option R) (s : State
   execAtIff : ∀ a, a ≤ g.n → (s.execAt a).isSome = (s.phase a).executed
   execCnt : ∀ a, a ≤ g.n → s.execCount a = if (s.phase a).executed then 1 else 0
   closedIff : s.closed = (s.phase g.n).executed
+  /-- an action handled without a token of its own is the one the dispatcher loop runs inline -/
+  inlineDisp : ∀ a, a ≤ g.n → s.phase a = .running false → s.disp = some a ∧ cfg.buffered = true
+  /-- the semaphore never holds more than its capacity -/
+  cap : s.sem + s.env ≤ cfg.c
+
+/-- the ghost time stamps: the chain of synchronising events from the `exec` of a dependency
+to the `exec` of its dependent (`exec d` → `dec d t` → the decrement of `t` that reached
+zero → `exec t`) -/
+structure InvT (g : Dag) (s : State R) : Prop where
   tsExec : ∀ a i, s.execAt a = some i → i < s.now
   tsDec : ∀ d t k, s.decAt d t = some k → k < s.now
   tsZero : ∀ t z, s.zeroAt t = some z → z < s.now
